@@ -8,7 +8,7 @@ is non-quadratic (the compiler refuses it inside a constraint), and constant ope
 namespace Circomspect.Algebra
 
 def alg (op : String) (a b : Nat) : Nat :=
-  if op = "add" ∨ op = "sub" then max a b
+  if op = "add" ∨ op = "sub" then (if a = 2 ∧ b = 2 then 3 else max a b)   -- `(Quadratic, Quadratic) => NonQuadratic`
   else if op = "mul" then min 3 (a + b)
   else if op = "div" then (if b = 0 then a else 3)
   else (if a = 0 ∧ b = 0 then 0 else 3)
